@@ -25,11 +25,12 @@ import (
 	dawn "github.com/pgavlin/dawn"
 	"github.com/pgavlin/dawn/internal/verif/vlib"
 	"github.com/pgavlin/dawn/label"
+	"go.starlark.net/starlark"
 )
 
 const (
-	labelAlpha = "ab:/.@"
-	pathAlpha  = "a/.:"
+	labelAlpha = "ab:/.@ "
+	pathAlpha  = "a/.: "
 	fakeRoot   = "/R" // stands for the project root when locations are compared
 )
 
@@ -617,6 +618,7 @@ func main() {
 	// directory under the build-state directory.
 	recordPaths(r)
 	directoryNames(r)
+	declaredOutputs(r)
 
 	wantParse := totalStrings(labelAlpha, maxLabel)
 	wantPaths := totalStrings(pathAlpha, maxPath) * int64(3) * 2
@@ -763,4 +765,69 @@ func directoryNames(r *vlib.Run) {
 			r.Violation("C12:load-panic-on-directory-name", fmt.Sprintf("Load of a project with a directory named %q panicked: %v", name, pv), map[string]any{"directory": name, "panic": fmt.Sprint(pv)})
 		}
 	})
+}
+
+// declaredOutputs: generates= entries through the real target() builtin of a project whose root
+// directory is named "proj" and has siblings whose names extend it ("proj-out", "proj.cache",
+// "project2"). Whatever is accepted must lie inside the root, component-wise.
+func declaredOutputs(r *vlib.Run) {
+	base, err := os.MkdirTemp(r.Scratch, "gens")
+	if err != nil {
+		vlib.Fatalf("%v", err)
+	}
+	defer os.RemoveAll(base)
+	root := filepath.Join(base, "proj")
+	for _, d := range []string{"proj/sub", "proj-out", "proj.cache", "project2", "other"} {
+		os.MkdirAll(filepath.Join(base, d), 0o755)
+	}
+	os.WriteFile(filepath.Join(root, "dawn.toml"), []byte("name = \"p\"\n"), 0o644)
+	prefixes := []string{"", "../", "../../", "/", "/../", "sub/../../", "./../", "a/../../", "..//"}
+	tails := []string{"gen.txt", "proj-out/gen.txt", "proj.cache/x", "project2/x", "proj/x", "other/x", "proj-out", "sub/gen.txt", "proj/../proj-out/g"}
+	for _, pkg := range []string{"", "sub"} {
+		for _, pre := range prefixes {
+			for _, tail := range tails {
+				entry := pre + tail
+				os.Remove(filepath.Join(root, "BUILD.dawn"))
+				os.Remove(filepath.Join(root, "sub", "BUILD.dawn"))
+				os.RemoveAll(filepath.Join(root, ".dawn"))
+				os.WriteFile(filepath.Join(root, pkg, "BUILD.dawn"), []byte(fmt.Sprintf("def _t(t):\n    pass\ntarget(name=\"t\", function=_t, generates=[%q])\n", entry)), 0o644)
+				var pv any
+				var proj *dawn.Project
+				var lerr error
+				func() {
+					defer func() { pv = recover() }()
+					proj, lerr = dawn.Load(root, &dawn.LoadOptions{})
+				}()
+				r.Add("generates_entries_loaded", 1)
+				if pv != nil {
+					r.Violation("C12:generates-panic", fmt.Sprintf("target(generates=[%q]) in package //%s panicked: %v", entry, pkg, pv), map[string]any{"package": pkg, "entry": entry})
+					continue
+				}
+				if lerr != nil {
+					continue // rejected
+				}
+				for _, t := range proj.Targets() {
+					ha, ok := t.(starlark.HasAttrs)
+					if !ok {
+						continue
+					}
+					gv, _ := ha.Attr("generates")
+					it, ok := gv.(starlark.Iterable)
+					if !ok {
+						continue
+					}
+					iter := it.Iterate()
+					var x starlark.Value
+					for iter.Next(&x) {
+						g, _ := starlark.AsString(x)
+						rel, err := filepath.Rel(root, g)
+						if err != nil || rel == ".." || strings.HasPrefix(rel, ".."+string(filepath.Separator)) || filepath.IsAbs(rel) {
+							r.Violation("C12:generated-file-outside-root", fmt.Sprintf("target(generates=[%q]) in package //%s of root %s was accepted with location %s", entry, pkg, root, g), map[string]any{"package": pkg, "entry": entry, "location": g})
+						}
+					}
+					iter.Done()
+				}
+			}
+		}
+	}
 }
